@@ -127,7 +127,9 @@ type Kernel struct {
 	// at which another process could
 	AfterSyscall func(n int, op string)
 	// Lost: writes dropped from write-back by failed fsyncs (see dataOp.lost)
-	Lost    []LostWrite
+	Lost []LostWrite
+	// Fired: the faults that actually took effect, with the index of the system call they hit
+	Fired   []FiredFault
 	nsys    int
 	opCount map[string]int
 	used    int64
@@ -185,7 +187,7 @@ func kernelOf(s *simrt.Sim) *Kernel {
 }
 
 // SetFaults replaces the fault list and resets the syscall counter.
-func (k *Kernel) SetFaults(f []Fault) { k.cfg.Faults = f; k.nsys = 0; k.opCount = nil }
+func (k *Kernel) SetFaults(f []Fault) { k.cfg.Faults = f; k.nsys = 0; k.opCount = nil; k.Fired = nil }
 
 // SetConfig replaces the configuration (between phases).
 func (k *Kernel) SetConfig(c Config) { k.cfg = c; k.nsys = 0 }
@@ -414,6 +416,12 @@ func (k *Kernel) failSync(fd int) {
 		}
 		op.lost = true
 	}
+}
+
+// FiredFault is one fault that took effect on system call N.
+type FiredFault struct {
+	N int
+	F Fault
 }
 
 // LostWrite is a write that a failed fsync dropped from write-back.
